@@ -30,6 +30,7 @@ import (
 	"fmt"
 	"io"
 	"testing"
+	"time"
 
 	"pgregory.net/rapid"
 
@@ -170,7 +171,6 @@ func runTCP(c *TCPCase) (fail *failure, class string, nt bool, sig string) {
 	rA.FailWriteAfter.Store(c.FailWriteA)
 	rB.FailWriteAfter.Store(c.FailWriteB)
 	app := [2]*vkit.BufConn{appA, appB}
-	rel := [2]*vkit.BufConn{rA, rB}
 	noCW := [2]bool{c.NoCWA, c.NoCWB}
 	seed := [2]uint64{c.SeedA, c.SeedB}
 
@@ -192,10 +192,7 @@ func runTCP(c *TCPCase) (fail *failure, class string, nt bool, sig string) {
 		for _, x := range []*vkit.BufConn{appA, appB, rA, rB} {
 			x.Close()
 		}
-		h.wait(bound(), func() bool { return col[0].done && col[1].done })
-		if fail != nil && fail.timing {
-			h.wait(bound(), func() bool { return returned })
-		}
+		h.wait(bound(), func() bool { return col[0].done && col[1].done && returned })
 	}()
 
 	m := newTCPModel(c)
@@ -360,12 +357,12 @@ func runTCP(c *TCPCase) (fail *failure, class string, nt bool, sig string) {
 			m.d[x].endKind = "eof"
 		}
 	}
-	t0 := timeNow()
+	t0 := time.Now()
 	if !h.wait(B, func() bool { return returned }) {
 		return hangf("C12/tcp/no-return-after-both-directions-finished",
 			"Bidirectional still running %v after both directions finished (A->B: %s after %d bytes, B->A: %s after %d bytes)", B, m.d[0].endKind, m.d[0].exp, m.d[1].endKind, m.d[1].exp), "", false, ""
 	}
-	noteLatency(timeSince(t0))
+	noteLatency(time.Since(t0))
 
 	// --- after return
 	if !rA.IsClosed() || !rB.IsClosed() {
@@ -390,9 +387,6 @@ func runTCP(c *TCPCase) (fail *failure, class string, nt bool, sig string) {
 		if m.clean {
 			need, tag = s.sent, "no-error-run"
 		}
-		if stopped && !m.clean && m.firstFault != d {
-			need = 0
-		}
 		if len(got) < need {
 			return failf("C12/tcp/bytes-lost/"+tag, "direction %s (ended by %s): %d bytes arrived, %d were due (%d sent)", dirName(d), s.endKind, len(got), need, s.sent), "", false, ""
 		}
@@ -402,7 +396,11 @@ func runTCP(c *TCPCase) (fail *failure, class string, nt bool, sig string) {
 	reported := [2]int64{res.BytesSent, res.BytesReceived}
 	for d := 0; d < 2; d++ {
 		if reported[d] != accepted[d] {
-			return failf("C12/tcp/result-count-mismatch/direction-ended-by-"+m.d[d].endKind,
+			kind := m.d[d].endKind
+			if kind == "write-fault" || kind == "write-to-closed" {
+				kind = "write-error"
+			}
+			return failf("C12/tcp/result-count-mismatch/direction-ended-by-"+kind,
 				"direction %s: Result reports %d bytes, the destination accepted %d (direction ended by %s)", dirName(d), reported[d], accepted[d], m.d[d].endKind), "", false, ""
 		}
 	}
